@@ -331,6 +331,7 @@ class PointTier(textgrid_tier.TextgridTier):
             newPoint = Point(entry[0], entry[1])
         else:
             newPoint = entry
+        newPoint = Point(newPoint.time, newPoint.label.strip())
 
         matchList = []
         i = None
